@@ -82,6 +82,7 @@ def make_cfg(seed, i):
     if r() < 0.45 and not cfg.get("reg"):
         up["logging.save_diagnostic_info"] = True
         up["logging.save_poisedness"] = bool(r() < 0.15)
+    campaign.maybe_failpoint(cfg, rng, p=0.08)
     return cfg
 
 
